@@ -303,6 +303,13 @@ def case_biterrors(ctx, rng, idx):
         b = np.asarray(b).astype(np.int64)       # keeps all its `bits` bits
         if rng.random() < 0.5:
             a, b = b, a
+    if kind in ("2d", "3d") and rng.random() < 0.4:
+        # transposed / Fortran-ordered views (values unchanged, memory order differs)
+        if rng.random() < 0.5:
+            a, b = np.asfortranarray(a), np.asfortranarray(b)
+        else:
+            a = np.ascontiguousarray(np.swapaxes(a, 0, -1)).swapaxes(0, -1)
+            b = np.ascontiguousarray(np.swapaxes(b, 0, -1)).swapaxes(0, -1)
     if kind == "pyint":
         a, b = int(a), int(b)
     ref_el = popcount_arr(np.bitwise_xor(np.asarray(a, dtype=np.int64),
